@@ -38,5 +38,31 @@ CHECKS["C03"] = {
     "technique": "explicit-state model checking of the implementation (BFS with state hashing over real objects, reference-model oracle on every transition)",
 }
 
+CHECKS["C01"] = {
+    "engine": "E1-stateful-explorer",
+    "category": "model_checking",
+    "text": "Explicit-state BFS from the default-constructed string over raw states (size() plus the complete N+1 element buffer, so states that look equal but differ in stale bytes behind the "
+            "terminator stay distinct). Every operation instance of the public alphabet (~10k instances per instantiation) is applied to every reachable state; each operation is written once as a "
+            "generic lambda and executed on the real xbasic_fixed_string and on std::basic_string, and return value, exception and observable state are compared; every new state answers ~9k query "
+            "instances. Packed, size-field and strlen layouts, silent and throwing policy, char and char16_t, N=3 run to FIXPOINT (all reachable states of the alphabet, incl. length exactly N); "
+            "capacities 200 and 256 are depth-bounded from seeds of length 0,1,N-1,N. The property is about what one call leaves behind for the next, which is exactly what state-space search decides.",
+    "design_ref": "DESIGN.md section 3, C01",
+    "note": "Trusted: libstdc++ std::basic_string; resize(n) modelled as blank fill. Bounds: character alphabet {a,b} (+ blank, NUL through counted overloads), N=3 (thorough 4), positions 0..N+1/far/npos, "
+            "source operands of length <= 2, N, N+1. No self-aliasing arguments, no calls undefined for std::string; wchar_t is ill-formed on this tree and not instantiated.",
+    "technique": "explicit-state model checking of the implementation (BFS to fixpoint over raw object states, std::basic_string as lock-step reference model)",
+}
+CHECKS["C02"] = {
+    "engine": "E1-stateful-explorer",
+    "category": "model_checking",
+    "text": "The error transitions of the C01 state space: in every reachable raw state (in particular length N-1 and N) every operation instance is classified by the reference model "
+            "(position beyond the relevant length => std::out_of_range, else result longer than N => std::length_error, else success); the exception class is compared and after a failed call size() "
+            "and data()[0..size()] must equal the pre-state. The string under test sits between two neighbour strings and 32-byte guard frames that must stay byte-identical after every transition; "
+            "argument buffers are exact-size heap blocks under AddressSanitizer. Millions of error transitions are enumerated (expected_*_transitions in the evidence), not sampled.",
+    "design_ref": "DESIGN.md section 3, C02",
+    "note": "Trusted: the model's classification of positions and lengths; ASan red zones for argument over-reads; neighbour/guard comparison for writes outside the buffer (ASan cannot see intra-block overflow). "
+            "size()+count never overflows in the alphabet. When a position and a capacity error coincide std::out_of_range is expected.",
+    "technique": "explicit-state model checking with exhaustive enumeration of failing operation instances (fault transitions) in every reachable state",
+}
+
 NOT_YET = "check not built yet in this round; design in DESIGN.md section 3"
 NOT_APPLICABLE = {}
